@@ -19,12 +19,14 @@ from . import common as C
 from . import meshgen as mg
 
 PROP = 'C05'
-LEAN_MODULES = ['Femio.Props.C05']
+LEAN_MODULES = ['Femio.Props.C05', 'Femio.Props.C05K']
 THEOREMS = ['C05_full_save', 'C05_crash_inv', 'C05_save_inv', 'C05_read_inv', 'C05_history_inv', 'C05_crash_safe',
             'C05_cache_transparent', 'C05_load_complete_save', 'C05_crash_counterexample_upstream',
-            'C05_stale_counterexample_upstream']
-PARTIAL = ['the key scheme "<name>/<type>/ids|data" and its splitting on load (to_dict / from_dict) is not yet a theorem: it is '
-           'covered by the save->load exactness oracle (incl. tet+tet2 / hex+hex2 mixes and names containing "ids", "data" or a type name)',
+            'C05_stale_counterexample_upstream', 'split_join', 'C05_keys_attr_roundtrip', 'C05_keys_roundtrip',
+            'C05_keys_elements_roundtrip', 'C05_keys_elemental_collection_roundtrip',
+            'C05_keys_counterexample_substring_type', 'C05_keys_counterexample_ids_in_name']
+PARTIAL = ['key scheme theorems (C05_keys_*) treat array payloads as opaque tags: numpy.savez / numpy.load exactness is trusted; names / '
+           'types containing "/" are excluded by hypothesis (femio itself cannot load them)',
            'torn writes inside one np.savez are modelled as "file present but unreadable" (a crash point), not byte-level',
            'read options other than the defaults (read_mesh_only, differing time_series) across one history are not modelled']
 RULE = ('seeded histories (quick <= 6 ops, thorough <= 10) over read | save X [mesh-only] | crash X@k [torn] with three distinct '
@@ -382,6 +384,7 @@ def exactness(ctx, k):
         fd, m = make_obj(r, 4 + k % 5, has_nodal_extra=r.random() < .85, has_elemental=r.random() < .7,
                          has_constraints=r.random() < .5, time_series=ts)
         kind = '+'.join(m['blocks'])
+    key_tie(ctx, fd)
     want = digest(fd)
     case = {'kind': kind, 'time_series': ts, 'nodal': list(fd.nodal_data.keys()), 'elemental': list(fd.elemental_data.keys()),
             'mesh': mg.to_json(m), 'seed_note': 're-run the check with the same VERIF_SEED to rebuild the object'}
@@ -402,6 +405,57 @@ def exactness(ctx, k):
             ctx.fail(f'load-differs:{g}' + (':time-series' if ts else ''), f'save -> load changed the {g} of a {kind} mesh', case,
                      {'want': repr(want[g])[:400], 'got': repr(got[g])[:400]})
             return
+
+
+def key_tie(ctx, fd):
+    """tie T/D for Model/NpyKeys.lean: the keys femio writes and how it splits / classifies them on load"""
+    if ctx.driver is None:
+        return
+    from femio import FEMElementalAttribute
+    ed = fd.elemental_data
+    if len(ed) and all(isinstance(v, FEMElementalAttribute) for v in ed.values()):
+        real = list(ed.to_dict().keys())
+        line = 'c05k.todict ' + C.enc_list(ed.items(), lambda nv: C.esc(nv[0]) + ' ' + C.enc_list(nv[1].keys(), C.esc))
+        t = C.Toks(ctx.driver.ask(line))
+        assert t.tok() == 'ok'
+        model = [C.unesc(x) for x in t.lst(t.tok)]
+        ctx.count('key-tie:elemental')
+        if model != real:
+            ctx.disagree('keys written for elemental data', {'names': list(ed.keys())}, real, model)
+        # the per-type split of one variable, as femio does it now
+        for name, v in ed.items():
+            sub = {k: 0 for k in real if k.split('/')[0] == name}
+            try:
+                split = FEMElementalAttribute._split_dict_data(sub)
+            except Exception as e:
+                split = {'error': repr(e)}
+            for ty in v.keys():
+                t = C.Toks(ctx.driver.ask(f'c05k.split 1 {C.enc_list(sub.keys(), C.esc)} {C.esc(ty)}'))
+                assert t.tok() == 'ok'
+                m = [C.unesc(x) for x in t.lst(t.tok)]
+                if list(split.get(ty, {}).keys()) != m:
+                    ctx.disagree('entries selected for element type ' + ty, {'keys': list(sub)}, list(split.get(ty, {}).keys()), m)
+    nd = fd.nodal_data
+    real = list(nd.to_dict().keys())
+    t = C.Toks(ctx.driver.ask('c05k.ntodict ' + C.enc_list(nd.keys(), C.esc)))
+    assert t.tok() == 'ok'
+    model = [C.unesc(x) for x in t.lst(t.tok)]
+    ctx.count('key-tie:nodal')
+    if model != real:
+        ctx.disagree('keys written for nodal data', {'names': list(nd.keys())}, real, model)
+    # classification of a key as ids / data by FEMAttribute.from_dict
+    from femio import FEMAttribute
+    for k in real:
+        t = C.Toks(ctx.driver.ask(f'c05k.kind 1 {C.esc(k)}'))
+        assert t.tok() == 'ok'
+        mk = t.tok()
+        try:
+            a = FEMAttribute.from_dict('x', {k: np.array([1]), ('zz/data' if mk == 'i' else 'zz/ids'): np.array([2.])}, silent=True)
+            rk = 'i' if int(a.ids[0]) == 1 else 'd'
+        except Exception:
+            rk = 'x'
+        if rk != mk:
+            ctx.disagree('classification of key ' + k, {'key': k}, rk, mk)
 
 
 def trace_tie(ctx):
